@@ -216,6 +216,32 @@ fn fam_corner_witnesses(tag: &str, out: &mut Vec<Case>) {
         })));
     }
 }
+// a statement may list the same commitment (same value, same mask) more than once; it is a valid statement with a valid witness
+fn fam_duplicate_commitments(tag: &str, out: &mut Vec<Case>) {
+    for &(bits, m, d) in &[(8usize, 2usize, 1usize), (16, 4, 2)] {
+        let id = format!("{}:complete:duplicate-commitments:bits={},m={},d={}", tag, bits, m, d);
+        let idc = id.clone();
+        out.push((id, Box::new(move || {
+            let mut rng = rng_for(&idc);
+            let pc = create_pedersen_gens_with_extension_degree(deg(d));
+            let params = RangeParameters::init(bits, m, pc).map_err(|e| format!("{:?}", e))?;
+            let v = rng.next_u64() & ((1u64 << (bits - 1)) - 1);
+            let r: Vec<Scalar> = (0..d).map(|_| Scalar::random(&mut rng)).collect();
+            let c = params.pc_gens().commit(&Scalar::from(v), &r).map_err(|e| format!("{:?}", e))?;
+            let statement = RangeStatement::init(params, vec![c; m], vec![None; m], None).map_err(|e| format!("statement listing one commitment {} times refused: {:?}", m, e))?;
+            let witness = RangeWitness::init((0..m).map(|_| CommitmentOpening::new(v, r.clone())).collect()).map_err(|e| format!("{:?}", e))?;
+            let proof = o_prove(&mut Transcript::new(b"ctx"), &statement, &witness, &mut rng)
+                .map_err(|e| format!("prover refused a valid witness for a statement listing one commitment {} times: {:?}", m, e))?;
+            let mem = Member { statement, proof, blindings: r.clone(), seeded: false };
+            let other = make_member(&mut rng, bits, 1, 1, d, false, None, b"ctx")?;
+            for action in [VerifyAction::VerifyOnly, VerifyAction::RecoverAndVerify] {
+                let batch = [mem.clone(), other.clone(), mem.clone()];
+                verify(&batch, action, b"ctx").map_err(|e| format!("honest proof for a statement listing one commitment {} times rejected ({:?}): {}", m, action, e))?;
+            }
+            Ok(())
+        })));
+    }
+}
 // "for whatever random-number generator the prover is handed": constant and short-period generators
 struct CycleRng(Vec<u8>, usize);
 impl RngCore for CycleRng {
@@ -250,7 +276,9 @@ fn fam_degenerate_rng(tag: &str, out: &mut Vec<Case>) {
 }
 fn fam_completeness(tag: &str, out: &mut Vec<Case>) {
     fam_corner_witnesses(tag, out);
+    fam_duplicate_commitments(tag, out);
     fam_degenerate_rng(tag, out);
+    if tag != "C09" && tag != "C10" { fam_fixed_seeds(tag, out); }
     // C01 / C12 / C09 / C10: honest proofs verify in every mode, masks are the blinding vectors, any verifier capacity works
     for &bits in &[1usize, 2, 4, 8, 16, 32, 64] {
         for &m in &[1usize, 2, 4, 8] {
